@@ -373,9 +373,13 @@ func execute(h *run.H, tr *hist.Trace, draw func(w *hist.World, scoutR *sim.Repl
 		st.blocks++
 		debugf("h=%d apphash A=%x B=%x failed=%v\n", bA.Height, resA.AppHash, resB.AppHash, failedKinds)
 		if d := sim.CompareBlockRes(kept, resB); d != "" {
-			diff := sim.DiffDumps(a.DumpMap(), b.DumpMap())
+			da, db := a.DumpMap(), b.DumpMap()
+			diff := sim.DiffDumps(da, db)
 			if len(diff) > 8 {
 				diff = diff[:8]
+			}
+			if len(diff) > 0 {
+				debugf("first differing key %q: subject %x twin %x\n", diff[0], da[diff[0]], db[diff[0]])
 			}
 			class := "none-failed"
 			if len(failedKinds) > 0 {
@@ -739,7 +743,7 @@ func TestC06(t *testing.T) {
 		var lastSpec sim.BlockSpec
 		out, st := execute(h, tr, func(w *hist.World, sc *sim.Replica) (*blockPlan, bool) {
 			if g == nil {
-				g = &hist.Gen{W: w, T: rt, Hostile: 20, Strange: 25, Kinds: hist.Profiles[prof], Excl: h.Excluded, Seen: map[string]int{}, TagsN: map[string]int{}}
+				g = &hist.Gen{W: w, T: rt, Hostile: 20, Strange: 25, Kinds: hist.Profiles[prof], Excl: h.Excluded, Seen: map[string]int{}, TagsN: map[string]int{}, NoBlockGasObserver: true}
 				eng = &engineer{rt: rt, u: u, g: g, labels: map[string]int{}}
 			}
 			if blocks > 0 && len(w.Results) > 0 {
